@@ -7,6 +7,7 @@ are the generated ones (Gen/SitesC16.lean).  Everything below is for all objects
 -/
 import ElfioVerif.Lemmas.OStream
 import ElfioVerif.Model.Writer
+import ElfioVerif.Lemmas.WriterSites
 namespace ElfioVerif
 open Gen OStream
 
@@ -141,6 +142,7 @@ def saveOps (o : Obj) (h : Bytes) (secs : List SecBuf) (segs : List Seg) : List 
 theorem saveSection_eq (c enc shoff shentsize) (os : OStream) (b : SecBuf) :
     saveSection c enc shoff shentsize os b = runStreamOps (secOps c enc shoff shentsize b) os := by
   unfold saveSection secOps
+  rw [secWritesData_eq]
   split <;> rfl
 
 theorem saveSegment_eq (c enc phoff phentsize) (os : OStream) (g : Seg) :
@@ -206,9 +208,10 @@ theorem save_pair (o : Obj) (os1 os2 : OStream) (h1 : os1.fail = false) (h2 : os
     SavePair o os1 os2 := by
   unfold SavePair
   cases hh : o.hdr with
-  | none => right; left; exact ⟨o, by simp only [save, hh]; rfl, by simp only [save, hh]; rfl⟩
+  | none => right; left; exact ⟨o, by simp only [save, hh, save_entry_refused_none, ↓reduceIte]; rfl,
+      by simp only [save, hh, save_entry_refused_none, ↓reduceIte]; rfl⟩
   | some h =>
-    simp only [save, hh, h1, h2, Bool.false_eq_true, ↓reduceIte]
+    simp only [save, hh, save_entry_refused_some, h1, h2, Bool.false_eq_true, ↓reduceIte]
     generalize hq0 : allResident _ _ _ _ _ = q0
     obtain ⟨secs0, ls0⟩ := q0
     simp only []
@@ -339,11 +342,11 @@ theorem save_ok_true (o : Obj) (k : Nat) (ru : SaveRes)
 theorem save_null_header (o : Obj) (os : OStream) (h : o.hdr = none ∨ os.fail = true) :
     save o os = .ok { obj := o, os := os, ok := false } := by
   cases hh : o.hdr with
-  | none => simp only [save, hh]; rfl
+  | none => simp only [save, hh, save_entry_refused_none, ↓reduceIte]; rfl
   | some hb =>
     rcases h with h | h
     · rw [hh] at h; cases h
-    · simp only [save, hh, h, ↓reduceIte]; rfl
+    · simp only [save, hh, save_entry_refused_some, h, ↓reduceIte]; rfl
 
 /-! ### an unlimited stream takes everything -/
 
@@ -534,12 +537,13 @@ def saveOld (o : Obj) (os : OStream) : M SaveRes := do
 theorem saveOld_same_effects (o : Obj) (os : OStream) :
     (saveOld o os).map (fun r => (r.obj, r.os)) = (save o os).map (fun r => (r.obj, r.os)) := by
   cases hh : o.hdr with
-  | none => simp only [save, saveOld, hh]
+  | none => simp only [save, saveOld, hh, save_entry_refused_none, ↓reduceIte]
   | some h =>
     cases hf : os.fail with
-    | true => simp only [save, saveOld, hh, hf, ↓reduceIte]
+    | true => simp only [save, saveOld, hh, save_entry_refused_some, hf, ↓reduceIte]
     | false =>
-      simp only [save, saveOld, hh, hf, Bool.false_eq_true, ↓reduceIte]
+      simp only [save, saveOld, hh, save_entry_refused_some, hf, Bool.false_eq_true, ↓reduceIte, save_phoff_toNat,
+        save_shoff0_toNat]
       generalize hq0 : allResident _ _ _ _ _ = q0
       obtain ⟨secs0, ls0⟩ := q0
       simp only []
